@@ -5,6 +5,7 @@ import (
 	"path"
 
 	"github.com/goatcms/goatcore/filesystem"
+	"github.com/goatcms/goatcore/varutil"
 )
 
 // SubFS is a filespace related to a base path in other filespace
@@ -15,92 +16,177 @@ type SubFS struct {
 
 // NewSubFS create new sub filesystem. Related to parent filesystem and path.
 func NewSubFS(fs filesystem.Filespace, basePath string) filesystem.Filespace {
-	basePath = path.Clean(basePath) + "/"
+	// the base is resolved lexically inside the parent: ".." can not climb above it
+	if basePath = path.Clean("/" + basePath)[1:]; basePath != "" {
+		basePath += "/"
+	}
 	return SubFS{
 		basePath: basePath,
 		fs:       fs,
 	}
 }
 
+// abs resolves a path of the sub filespace to a path of the parent filespace.
+// A path that would climb above the base path is rejected.
+func (sub SubFS) abs(p string) (string, error) {
+	p, err := varutil.ReduceAbsPath(p)
+	if err != nil {
+		return "", err
+	}
+	return sub.basePath + p, nil
+}
+
 // Copy method run Copy method of parent filesystem but in relative base path
 func (sub SubFS) Copy(src, dest string) error {
-	return sub.fs.Copy(sub.basePath+src, sub.basePath+dest)
+	var err error
+	if src, err = sub.abs(src); err != nil {
+		return err
+	}
+	if dest, err = sub.abs(dest); err != nil {
+		return err
+	}
+	return sub.fs.Copy(src, dest)
 }
 
 // CopyDirectory method run CopyDirectory method of parent filesystem but in relative base path
 func (sub SubFS) CopyDirectory(src, dest string) error {
-	return sub.fs.CopyDirectory(sub.basePath+src, sub.basePath+dest)
+	var err error
+	if src, err = sub.abs(src); err != nil {
+		return err
+	}
+	if dest, err = sub.abs(dest); err != nil {
+		return err
+	}
+	return sub.fs.CopyDirectory(src, dest)
 }
 
 // CopyFile method run CopyFile method of parent filesystem but in relative base path
 func (sub SubFS) CopyFile(src, dest string) error {
-	return sub.fs.CopyFile(sub.basePath+src, sub.basePath+dest)
+	var err error
+	if src, err = sub.abs(src); err != nil {
+		return err
+	}
+	if dest, err = sub.abs(dest); err != nil {
+		return err
+	}
+	return sub.fs.CopyFile(src, dest)
 }
 
 // ReadDir method run ReadDir method of parent filesystem but in relative base path
 func (sub SubFS) ReadDir(src string) ([]os.FileInfo, error) {
-	return sub.fs.ReadDir(sub.basePath + src)
+	var err error
+	if src, err = sub.abs(src); err != nil {
+		return nil, err
+	}
+	return sub.fs.ReadDir(src)
 }
 
 // IsExist method run IsExist method of parent filesystem but in relative base path
 func (sub SubFS) IsExist(src string) bool {
-	return sub.fs.IsExist(sub.basePath + src)
+	var err error
+	if src, err = sub.abs(src); err != nil {
+		return false
+	}
+	return sub.fs.IsExist(src)
 }
 
 // IsFile method run IsFile method of parent filesystem but in relative base path
 func (sub SubFS) IsFile(src string) bool {
-	return sub.fs.IsFile(sub.basePath + src)
+	var err error
+	if src, err = sub.abs(src); err != nil {
+		return false
+	}
+	return sub.fs.IsFile(src)
 }
 
 // IsDir method run IsDir method of parent filesystem but in relative base path
 func (sub SubFS) IsDir(src string) bool {
-	return sub.fs.IsDir(sub.basePath + src)
+	var err error
+	if src, err = sub.abs(src); err != nil {
+		return false
+	}
+	return sub.fs.IsDir(src)
 }
 
 // MkdirAll method run MkdirAll method of parent filesystem but in relative base path
 func (sub SubFS) MkdirAll(dest string, filemode os.FileMode) error {
-	return sub.fs.MkdirAll(sub.basePath+dest, filemode)
+	var err error
+	if dest, err = sub.abs(dest); err != nil {
+		return err
+	}
+	return sub.fs.MkdirAll(dest, filemode)
 }
 
 // ReadFile method run ReadFile method of parent filesystem but in relative base path
 func (sub SubFS) ReadFile(src string) ([]byte, error) {
-	return sub.fs.ReadFile(sub.basePath + src)
+	var err error
+	if src, err = sub.abs(src); err != nil {
+		return nil, err
+	}
+	return sub.fs.ReadFile(src)
 }
 
 // WriteFile method run WriteFile method of parent filesystem but in relative base path
 func (sub SubFS) WriteFile(dest string, data []byte, perm os.FileMode) error {
-	return sub.fs.WriteFile(sub.basePath+dest, data, perm)
+	var err error
+	if dest, err = sub.abs(dest); err != nil {
+		return err
+	}
+	return sub.fs.WriteFile(dest, data, perm)
 }
 
 // Filespace create new filespace
-func (sub SubFS) Filespace(src string) (filesystem.Filespace, error) {
+func (sub SubFS) Filespace(src string) (_ filesystem.Filespace, err error) {
+	if src, err = sub.abs(src); err != nil {
+		return nil, err
+	}
 	return SubFS{
-		basePath: sub.basePath + path.Clean(src) + "/",
+		basePath: src + "/",
 		fs:       sub.fs,
 	}, nil
 }
 
 // Reader method run Reader method of parent filesystem but in relative base path
 func (sub SubFS) Reader(src string) (filesystem.Reader, error) {
-	return sub.fs.Reader(sub.basePath + src)
+	var err error
+	if src, err = sub.abs(src); err != nil {
+		return nil, err
+	}
+	return sub.fs.Reader(src)
 }
 
 // Writer method run Writer method of parent filesystem but in relative base path
 func (sub SubFS) Writer(dest string) (filesystem.Writer, error) {
-	return sub.fs.Writer(sub.basePath + dest)
+	var err error
+	if dest, err = sub.abs(dest); err != nil {
+		return nil, err
+	}
+	return sub.fs.Writer(dest)
 }
 
 // Remove method run Remove method of parent filesystem but in relative base path
 func (sub SubFS) Remove(dest string) error {
-	return sub.fs.Remove(sub.basePath + dest)
+	var err error
+	if dest, err = sub.abs(dest); err != nil {
+		return err
+	}
+	return sub.fs.Remove(dest)
 }
 
 // RemoveAll method run RemoveAll method of parent filesystem but in relative base path
 func (sub SubFS) RemoveAll(dest string) error {
-	return sub.fs.RemoveAll(sub.basePath + dest)
+	var err error
+	if dest, err = sub.abs(dest); err != nil {
+		return err
+	}
+	return sub.fs.RemoveAll(dest)
 }
 
 // Lstat method run Lstat method of parent filesystem but in relative base path
 func (sub SubFS) Lstat(src string) (os.FileInfo, error) {
-	return sub.fs.Lstat(sub.basePath + src)
+	var err error
+	if src, err = sub.abs(src); err != nil {
+		return nil, err
+	}
+	return sub.fs.Lstat(src)
 }
